@@ -45,6 +45,11 @@ CLAIMED = {
         note="Bounded: <=4 sources, lengths <=3 exhaustively; random <=6 sources, lengths <=9. In-memory sources (the jsonl reader is exercised by C08). Hang = next() not returning within 5 s.",
         technique="TLA+ state machine of the generator model-checked with TLC (incl. negative control); TLC-enumerated configurations replayed on the real generator; recorded iterations validated by a TLC trace spec",
         ref="6 C07"),
+    "C08": dict(
+        text="spec/Loader.tla models the index selection of the train loader (enumerate / take(limit) / skip(skip+ff+rank) / step_by(world), item seed = seed+epoch+global index) as a machine that pulls every index through the adaptor chain for all ranks; TLC checks closed form, disjoint rank streams, union = single-process stream restricted by skip and limit, the skip=k / limit=k split, fast_forward(k) = stream after its first k, termination, for all small parameter values. The rest of the composition is covered by the order-preservation specs (Pipe, Batched, Buffered, MultiGen). Binding: TLC-enumerated and random groups of runs are executed on the real TrainLoader (guarded driver hook; jsonl files, whitespace / spelling / switch / chain preprocessing, byte tokenizer): each group has a reference run defining the global index of every item; Trace_Loader checks that every global index is processed identically in every run, batches are identical for every thread count and buffer size, rank streams are disjoint with the right union, fast-forward yields the rest of the stream (in order without shuffling), no item twice; the exact closed-form selection, MultiGen order and min_items are mechanism-level.",
+        note="Bounded: MC stream length <=5/7, world <=3; replayed groups with <=3 files of <=7 lines, world <=3. Real thread schedules are free-running in this check (controlled schedules: C05/C09). Items are identified by their (uncorrupted) target text.",
+        technique="TLA+ machine of the index-selection adaptor chain model-checked with TLC; TLC-enumerated run groups executed on the real loader; recorded groups validated by a TLC trace spec",
+        ref="6 C08"),
     "C09": dict(
         text="TLC explores Pipe.tla with the consumer's Drop enabled at every point (invariants: look-ahead <= channel capacity + workers independent of the upstream length, at most one further pull per worker after the drop; liveness: every worker exits after a drop) and with a panicking item (with the process-exiting hook the run ends; without it TLC finds the wedged consumer - negative control), and Buffered.tla for capacities 0..2 (negative control: a producer that ignores the failed send violates the bound). Binding: edge covers of both state graphs are replayed on the real Pipe (hooks) and the real Buffered (its upstream iterator is the schedule point); random controlled schedules with drops, free-running abandon runs incl. an effectively unbounded upstream, and child processes with a panicking item are recorded and judged by the TLC monitor Trace_PipeObs; Pipe runs are also validated against the mechanism (Trace_Pipe).",
         note="Bounded: graphs W<=2,N<=2 (quick) / W<=3,N<=3 (thorough), Buffered N<=3/5, cap 0..2; random W<=4, caps {0,1,2,3,16}. Thread exit is observed via the drop of the upstream iterator; hang = no exit signal within 1.5-10 s for microsecond work (timing-only verdicts re-run once). std mpsc semantics trusted.",
